@@ -191,7 +191,46 @@ def judge_dec(pid, r, opl, gol, lel, metal, findings, breaks, cov, rec, seed):
     cov["distinct_nontrivial"] += len(distinct)
 
 
-JUDGES = {"dec": judge_dec}
+def judge_eq(pid, r, opl, gol, lel, metal, findings, breaks, cov, rec, seed):
+    """Generic differential judge: one line per operation, the implementation's
+    line must equal the model's.  `unsupported` on the model side skips the
+    case; meta's first word is the category used in the signature."""
+    n = lines_of(opl, gol, lel)
+    rec["ops"] = n
+    cats, uns, distinct = {}, 0, set()
+    only = r.get("only")
+    for i in range(n):
+        meta = metal[i] if i < len(metal) else ""
+        cat = meta.split(" ")[0] if meta else "?"
+        if only and not re.search(only, meta):
+            continue
+        go = gol[i] if i < len(gol) else "<missing>"
+        le = lel[i] if i < len(lel) else "<missing>"
+        cats[cat] = cats.get(cat, 0) + 1
+        cov["evaluations"] += 1
+        if "unsupported" in le:
+            uns += 1
+            continue
+        if go != le:
+            opk = opl[i].split(" ")[0]
+            detail = ""
+            for tok in ("toobig", "AFTER=", "WRITES=", "NOWRITE", "PANIC", "DECOMPRESS-ERROR"):
+                if tok in go or tok in le:
+                    detail = ":" + tok.strip("=")
+                    break
+            findings.append(dict(sig=f"{r['mode']}:{cat}:{opk}{detail}",
+                                 what=f"implementation and model disagree on a {cat} case of mode {r['mode']}: impl `{go[:100]}` model `{le[:100]}`",
+                                 data=dict(op=opl[i], impl=go, model=le, meta=meta, mode=r["mode"], seed=seed)))
+            continue
+        distinct.add(opl[i][:400])
+        if i % max(1, n // 5) == 0:
+            add_sample(cov, dict(op=opl[i][:300], impl=go[:200], meta=meta))
+    rec["categories"] = cats
+    rec["unsupported_skipped"] = uns
+    cov["distinct_nontrivial"] += len(distinct)
+
+
+JUDGES = {"dec": judge_dec, "eq": judge_eq}
 
 # ---------------------------------------------------------------- property table
 
@@ -208,10 +247,17 @@ RULE_DEC = ("streams are generated from the repo's five message kinds with an en
             "all 2^(n-1) for short streams in the thorough tier); a case is distinct by its byte stream and non-trivial "
             "when the model is inside its fragment (not `unsupported`) and agrees with the implementation")
 
+RULE_WIRE = ("messages of every kind (call, compressed call with ctype 0/1/2/unknown, notify, cancel, reply) with generated "
+             "seqnos, methods, arguments, results, errors and tag maps are sent through the real stack (Client / receive "
+             "loop + handler) over a recording connection, with the frame limit set around the content size (max-k..max+k); "
+             "the bytes of every Write are compared with the model's `wire` (byte for byte; values with multi-entry maps are "
+             "read back by the model's decoder instead); distinct = distinct operation lines on which model and "
+             "implementation agree")
+
 prop("C02",
      lean=["FmpRpc.Tie.C02", "FmpRpc.Props.C02"],
-     runs=[dict(mode="dec", n=(3000, 40000), judge="dec")],
-     rule=RULE_DEC,
+     runs=[dict(mode="wire", n=(1500, 20000), judge="eq"), dict(mode="dec", n=(3000, 40000), judge="dec")],
+     rule=RULE_WIRE + " || " + RULE_DEC,
      assumptions=["go-codec's msgpack reader/writer is modelled (Model/Msgpack) and validated by the differential run, not verified"])
 prop("C04",
      lean=["FmpRpc.Tie.C04", "FmpRpc.Props.C04"],
